@@ -11,6 +11,7 @@ class C20(LoopCheck):
     pid = "C20"
     props = {"C20"}
     flows = ("rng",)
+    adaptive_N3 = ()
     required_labels = ["c20/no_fresh_generator", "c20/user_generator_used", "c20/identical/ladder"]
 
     def configs(self, tier):
